@@ -12,7 +12,8 @@ PROP = dict(
         "C05_rule_sound_fold_int", "C05_rule_sound_fold_float", "C05_rule_sound_pushnil0",
         "C05_peephole1_sound", "C05_peephole2_sound", "C05_peephole3_sound", "C05_fires_sound",
         "C05_pass_segments", "C05_labels_preserved", "C05_pass_sound_block", "C05_chain_sound_block",
-        "C05_pass_label_split", "C05_optimize_label_split", "C05_optimize_sound_partial",
+        "C05_pass_label_split", "C05_optimize_label_split", "C05_without_imm_sound", "C05_expand_immediates_sound",
+        "C05_expand_immediates_labels", "C05_optimize_sound_partial",
     ],
     harness_bin="c05",
     # exact instruction streams are more than the property fixes: a bare model mismatch is reported as
@@ -35,7 +36,13 @@ PROP = dict(
          "(whole-number exponents 2..5, -1..-3, 16, 17, 0.5, ±0, huge) at a spread of NON-literal first operands (random mantissas, ±0, subnormals, "
          "2^53+1, ±MAX, ±inf, NaN; ints: boundaries and random) with the operand in a local and on top of the stack, destination top and local, "
          "against the variable-operand (un-fused) form with the optimizer off, compared on the printed shortest-round-trip text (bit-exact "
-         "for non-NaN) plus a NaN sign probe; "
+         "for non-NaN) plus a NaN sign probe; (6) coverage-guided shapes: math intrinsics (atan2, tan, asin, acos, atan, log, log2, log10) and "
+         "conversions (int_from_float, string_from_float, .str()) with local operands and `let` destinations in the generator and in a "
+         "directed program; a directed program of instructions outside the optimizer's vocabulary (string hash, bit_xor, wrapping ops, "
+         "channel + task, string bytes, intrinsic function values); hard probes with known output: a frame of 17000 locals (D90: offsets "
+         "beyond 15 bits are not fused) and a program with 65540 distinct int and float constants (expand_immediates really expands >= 1 "
+         "immediate); for the directed/intrinsics/probe programs the FINAL instruction list of the compiled program (names + resolved "
+         "constants) is compared with Opt.expandImmediates of the optimized assembly, and the constant pool with first-occurrence order; "
          "distinct = distinct request; non-trivial = the optimized assembly differs from the input",
     nontrivial=lambda req, imp: imp != " ".join(w for w in req.split(" #")[0].split()[2:] if w[:2] in ("I:", "L:")),
     trusted_base=COMMON_TB + [
@@ -50,7 +57,8 @@ PROP = dict(
         "side conditions of two rules (proved necessary): `Duplicate; Pop` is removed only soundly on a non-empty stack; "
         "`LoadOffset(x); Op(_, Top, Offset(y))` fusion needs y not to address the slot above the current top of stack "
         "(code generation only emits offsets of arguments, captures and locals)",
-        "Reg::Offset values stay inside the 15-bit encoding (Reg::encode panics otherwise) and fewer than 65536 constants (`as u16`)",
+        "the constant pool (which constants get a 16-bit index) is an input of Opt.expandImmediates; the harness recomputes it as the "
+        "first-occurrence order of the optimized assembly and checks it against the compiled program's pool",
         "D32 (float fold of a NaN result lost the NaN's sign; fixed by aa391e6: no fold when the result is NaN) and D33 (float unary minus "
         "compiled as 0.0 - x) (fixed by 0513352) are modelled in their repaired form",
     ],
